@@ -66,6 +66,21 @@ def run(ctx, clauses=CLAUSES, prop_note=None):
     big += sc.nested_ordered_inputs(rng, 1500 if thorough else 200, sc.SUPER_COSTS, deep=thorough)
     e2 = (tiny[::2] + mid + tiny3[ctx.seed % 3::3]) if not thorough else tiny + mid + tiny3
     cases = [(FAM, inp, sc.CALLS) for inp in list(dict.fromkeys(e2 + big))]
+    if thorough:
+        # every tuple of leaf syntenies (non-empty subsequences of a 4-family root order) on one caterpillar
+        import itertools
+        ot, st = gen.caterpillar(4), gen.caterpillar(4)
+        subs = [tuple(f for i, f in enumerate((1, 2, 3, 4)) if mask >> i & 1) for mask in range(1, 16)]
+        lm = gen.random_leaf_map(rng, ot, st)
+        leaves = proj.leaves_of(ot)
+        sweep = []
+        for combo in itertools.product(subs, repeat=4):
+            syn = [()] * len(ot)
+            for u, s_ in zip(leaves, combo):
+                syn[u - 1] = s_
+            sweep.append(sc.sinput(ot, st, lm, sc.SUPER_COSTS[0], syn, (1, 2, 3, 4)))
+        cases += [(FAM, inp, (("ext", "ALL"),)) for inp in sweep]
+        ctx.extra["caterpillar_sweep"] = len(sweep)
     results = sc.run_all(cases)
     ctx.stage("solver runs")
     for _, inp, events in results:
